@@ -17,7 +17,7 @@ func init() {
 		Patterns: []string{"./d2oracle", "./d2graph"},
 		Explanation: "Decides two structural necessary conditions of the agreement, not the agreement itself: " +
 			"(1) predictions are pure — the prediction functions of d2oracle (ReparentIDDelta, ReconnectEdgeIDDeltas, MoveIDDeltas, DeleteIDDeltas, RenameIDDeltas) compute the new IDs by temporarily rewriting IDs, parents and indices of the live graph; every such write to a field of a d2graph.Object or d2graph.Edge that the function did not create itself is undone: either a later statement of the same block writes the same place back (the opposite ++/-- for counters) with no return in between, or the write sits in a closure that returns its own undo closure, the undo closure writes the same places, and every call of the closure is followed on every path by a call (or a defer) of the undo. A prediction that leaves the graph changed makes the edit that follows run on another diagram than the one predicted for; " +
-			"(2) one name generator — each edit that invents a name on a conflict (Rename, move, Delete through renameConflictsToParent) and its prediction both reach generateUniqueKey, the only function of d2oracle that generates names; (3) renumbering agreement — the condition under which Delete lowers the index of a parallel connection's references and the condition under which DeleteIDDeltas predicts a lowered index are both `other.Index > deleted.Index`.",
+			"(2) one name generator — each edit that invents a name on a conflict (Rename, move, Delete through renameConflictsToParent) and its prediction both reach generateUniqueKey, the only function of d2oracle that generates names; (3) renumbering agreement — the condition under which Delete lowers the index of a parallel connection's references and the condition under which DeleteIDDeltas predicts a lowered index are both `other.Index > deleted.Index`; (4) a prediction that resolved the addressed board reads only the board's Root/Edges/Objects afterwards, and every test in d2oracle that takes two connections for parallel (compares Src and Dst of two edges) also compares both arrow ends, as the compiler's numbering does.",
 		NotCovered: "that the predicted map equals the ID changes of the edit for a given diagram (a comparison of two executions); which elements are reported; board-scoped edits",
 		Technique:  "static analysis: paired-update (typestate) on the typed AST and go/cfg, call-graph reachability",
 		Run:        runC40,
@@ -420,6 +420,131 @@ func runC40(c *core.Check) {
 			c.Decide(d.op == token.GTR && p.op == token.GTR, "C40.renumber-agreement", "renumber:Delete~DeleteIDDeltas", p.pos, "both renumber connections with other.Index > deleted.Index",
 				fmt.Sprintf("Delete renumbers the parallel connections with index %s the deleted one's, DeleteIDDeltas predicts new IDs for those with index %s it: the prediction and the edit disagree (or the connection with the same index is renumbered too)", d.op, p.op))
 		}
+	}
+
+	// (4) predictions use the board's graph, and their parallel-connection tests are the compiler's
+	c.Rule("C40.board-graph", "a prediction that resolved the addressed board reads the board's objects and connections, not the root graph's")
+	c.Rule("C40.parallel-test", "two connections are taken for parallel only when source, destination and both arrow ends agree (the test d2graph's initIndex uses)")
+	npar := 0
+	for _, fi := range c.P.Funcs(pk) {
+		if fi.Decl.Body == nil || fi.Decl.Recv != nil {
+			continue
+		}
+		// board graph
+		var boardG, gParam types.Object
+		var boardPos token.Pos
+		if ps := fi.Obj.Type().(*types.Signature).Params(); ps.Len() > 0 && strings.HasSuffix(ps.At(0).Type().String(), "d2graph.Graph") {
+			gParam = ps.At(0)
+		}
+		ast.Inspect(fi.Decl.Body, func(n ast.Node) bool {
+			as, ok := n.(*ast.AssignStmt)
+			if ok && len(as.Lhs) == 1 && len(as.Rhs) == 1 && core.IsCallTo(info, ast.Unparen(as.Rhs[0]), "d2oracle.GetBoardGraph") {
+				boardG = core.ObjOf(info, as.Lhs[0])
+				boardPos = as.End()
+			}
+			return true
+		})
+		isPrediction := strings.HasSuffix(fi.Decl.Name.Name, "IDDelta") || strings.HasSuffix(fi.Decl.Name.Name, "IDDeltas")
+		if isPrediction && boardG != nil && gParam != nil && gParam != boardG {
+			counts := map[string]int{}
+			ast.Inspect(fi.Decl.Body, func(n ast.Node) bool {
+				sel, ok := n.(*ast.SelectorExpr)
+				if !ok || core.ObjOf(info, sel.X) != gParam || sel.Pos() < boardPos {
+					return true
+				}
+				switch sel.Sel.Name {
+				case "Root", "Edges", "Objects":
+				default:
+					return true
+				}
+				key := fmt.Sprintf("board-graph:%s:%s", fname(fi), exprStr(sel))
+				counts[key]++
+				if counts[key] > 1 {
+					key = fmt.Sprintf("%s#%d", key, counts[key])
+				}
+				c.Fail("C40.board-graph", key, sel.Pos(), fmt.Sprintf("%s resolved the addressed board (%s) and then reads %s of the root graph: for an edit addressed to a nested board the prediction is computed from the root board's elements", fname(fi), boardG.Name(), exprStr(sel)))
+				return true
+			})
+		}
+		// parallel tests: a conjunction that compares .Src and .Dst of one connection with another's
+		ast.Inspect(fi.Decl.Body, func(n ast.Node) bool {
+			ifs, ok := n.(*ast.IfStmt)
+			if !ok {
+				return true
+			}
+			fields := map[string]bool{}
+			var walk func(e ast.Expr)
+			walk = func(e ast.Expr) {
+				e = ast.Unparen(e)
+				if call, isCall := e.(*ast.CallExpr); isCall {
+					// a helper (closure bound to a local, or a function of the package) that compares fields of two connections
+					var body ast.Node
+					if o := core.ObjOf(info, call.Fun); o != nil {
+						ast.Inspect(fi.Decl.Body, func(m ast.Node) bool {
+							as, ok := m.(*ast.AssignStmt)
+							if ok && len(as.Lhs) == 1 && len(as.Rhs) == 1 && core.ObjOf(info, as.Lhs[0]) == o {
+								if lit, ok := ast.Unparen(as.Rhs[0]).(*ast.FuncLit); ok {
+									body = lit.Body
+								}
+							}
+							return true
+						})
+					}
+					if body == nil {
+						if callee := core.CalleeOf(info, call); callee != nil && callee.Pkg() == pk.Types {
+							if h := c.P.Decl(callee); h != nil && h.Decl.Body != nil {
+								body = h.Decl.Body
+							}
+						}
+					}
+					if body != nil {
+						ast.Inspect(body, func(m ast.Node) bool {
+							if b2, ok := m.(*ast.BinaryExpr); ok && b2.Op == token.EQL {
+								for _, side := range []ast.Expr{b2.X, b2.Y} {
+									if sel, ok := ast.Unparen(side).(*ast.SelectorExpr); ok {
+										if t := info.TypeOf(sel.X); t != nil && strings.HasSuffix(t.String(), "d2graph.Edge") {
+											fields[sel.Sel.Name] = true
+										}
+									}
+								}
+							}
+							return true
+						})
+					}
+					return
+				}
+				be, ok := e.(*ast.BinaryExpr)
+				if !ok {
+					return
+				}
+				if be.Op == token.LAND {
+					walk(be.X)
+					walk(be.Y)
+					return
+				}
+				if be.Op != token.EQL {
+					return
+				}
+				for _, side := range []ast.Expr{be.X, be.Y} {
+					if sel, ok := ast.Unparen(side).(*ast.SelectorExpr); ok {
+						if t := info.TypeOf(sel.X); t != nil && strings.HasSuffix(t.String(), "d2graph.Edge") {
+							fields[sel.Sel.Name] = true
+						}
+					}
+				}
+			}
+			walk(ifs.Cond)
+			if !fields["Src"] || !fields["Dst"] {
+				return true
+			}
+			npar++
+			key := fmt.Sprintf("parallel:%s:%s", fname(fi), exprStr(ifs.Cond))
+			c.Decide(fields["SrcArrow"] && fields["DstArrow"], "C40.parallel-test", key, ifs.Pos(), "compares Src, Dst, SrcArrow and DstArrow", fmt.Sprintf("%s treats two connections as parallel when their ends agree and ignores the arrow direction; indices are per (source, destination, arrows), so `a -> b` and `a <-> b` are numbered separately by the compiler but together here, and the predicted indices are wrong", fname(fi)))
+			return true
+		})
+	}
+	if npar == 0 {
+		c.Fail("C40.parallel-test", "parallel:inventory", token.NoPos, "no parallel-connection test found in d2oracle")
 	}
 
 	// (2) one generator
